@@ -132,6 +132,8 @@ pub struct HdrState {
     pub chunked: bool,
     pub accept: u8,
     pub custom: Vec<(String, String)>,
+    /// name -> position in `custom` (keeps blocks of tens of thousands of lines linear)
+    pub custom_index: std::collections::BTreeMap<String, usize>,
 }
 
 pub enum LineRes {
@@ -232,9 +234,10 @@ pub fn model_header_line(h: &mut HdrState, line: &[u8]) -> LineRes {
         }
         _ => {
             // custom entry, trimmed name and value, last occurrence wins
-            if let Some(e) = h.custom.iter_mut().find(|e| e.0 == name) {
-                e.1 = value.to_string();
+            if let Some(&k) = h.custom_index.get(name) {
+                h.custom[k].1 = value.to_string();
             } else {
+                h.custom_index.insert(name.to_string(), h.custom.len());
                 h.custom.push((name.to_string(), value.to_string()));
             }
             LineRes::Ok
